@@ -184,7 +184,10 @@ impl Encoder<Message<(Response<()>, BodySize)>> for Codec {
             }
 
             Message::Chunk(Some(bytes)) => {
-                self.encoder.encode_chunk(bytes.as_ref(), dst)?;
+                // an empty chunk yielded by a body is not the end of the body; only `Chunk(None)` is
+                if !bytes.is_empty() {
+                    self.encoder.encode_chunk(bytes.as_ref(), dst)?;
+                }
             }
 
             Message::Chunk(None) => {
